@@ -101,6 +101,37 @@ def sparse_bigblock(ctx, b):
     for ex, line in core.validate_batch(ctx, recs, "sparsebig"):
         core.report(ctx, "real reader disagrees with the encoded entries of the block above 4 GiB at trace line %d: %s" % (line, json.dumps(ex[line - 1])[:300]),
                     {"kind": "trace", "trace": ex, "line": line})
+    # the boundary itself: entry areas of 2^32 - d bytes for small d (32-bit restart array, but the block as a whole is longer
+    # than 2^32 - 1 bytes) and just above 2^32 (64-bit array)
+    for d in ((8, -5) if ctx.quick() else (1, 8, 15, 16, 17, 64, -1, -5)):
+        path2 = os.path.join(wd, "edge%d.mtbl" % (d + 100))
+        n1 = 1431655765
+        n2 = (1 << 32) - d - 2 * n1 - 60
+        for _ in range(3):                      # adjust the third value until the entry area has exactly the wanted length
+            ents2 = [(b"a", n1), (b"a2", n1), (b"b", n2), (b"c", b"C" * 3)]
+            segs, clen = R._sparse_block(ents2)
+            earea = clen - (4 * (8 if d < 0 else 4) + 4)
+            n2 += (1 << 32) - d - earea
+        assert n2 < (1 << 31)
+        if earea != (1 << 32) - d:
+            raise core.Infra("edge file: entry area %d instead of 2^32 - %d" % (earea, d))
+        R.write_sparse_table(path2, [ents2])
+        mk2 = {"e": "MkTable", "path": path2, "ents": [{"k": list(k), "v": vrec(v)} for k, v in ents2]}
+        L2 = ["scratch " + wd, "r_init 0 %s 0 0" % path2, "it_iter 1 r:0", "it_seek 1 %s" % hx(b"c"), "it_next 1 2", "it_seek 1 %s" % hx(b"bb"), "it_next 1 2", "it_destroy 1",
+              gen.open_line(1, "r:0", ("get", b"c", b"")), "it_drain 1", "it_destroy 1", "r_destroy 0"]
+        evs, rc, err = core.run_drv(b, "\n".join(L2) + "\n", wd, "edge", timeout=900)
+        try:
+            os.unlink(path2)
+        except OSError:
+            pass
+        ctx.add("edge_blocks", 1)
+        if rc != 0:
+            core.report(ctx, "real reader ended abnormally (rc=%s) on a block whose entry area is 2^32 - %d bytes: %s" % (rc, d, err[-1200:]), {"kind": "script", "script": L2, "stderr": err[-3000:]})
+            continue
+        recs = [{"e": "Reset", "x": 0}, mk2] + [e for e in core.convert_events(evs) if e["e"] != "Reset"]
+        for ex, line in core.validate_batch(ctx, recs, "edge"):
+            core.report(ctx, "real reader disagrees with the encoded entries of a block whose entry area is 2^32 - %d bytes at trace line %d: %s" % (d, line, json.dumps(ex[line - 1])[:300]),
+                        {"kind": "trace", "trace": ex, "line": line})
 
 
 def run(ctx):
